@@ -24,6 +24,9 @@ def ratOfBits (u : UInt64) : Option Rat :=
   let mag : Rat := if ex ≥ 0 then ((mant * 2^ex.toNat : Nat) : Rat) else (mant : Rat) / ((2^(-ex).toNat : Nat) : Rat)
   some (if sign then -mag else mag)
 
+def ratAbs (r : Rat) : Rat := if r < 0 then -r else r
+def ratMax (a b : Rat) : Rat := if a < b then b else a
+
 /-- approximate value for the report only -/
 def ratToFloat (r : Rat) : Float :=
   let n := r.num.natAbs
@@ -45,13 +48,15 @@ def sci (r : Rat) : String :=
   let m := f / Float.pow 10.0 e
   s!"{m}e{e.toInt64}"
 
-def ratAbs (r : Rat) : Rat := if r < 0 then -r else r
-def ratMax (a b : Rat) : Rat := if a < b then b else a
 
 structure Sys where
   n : Nat := 0
   A : Array Rat := #[]     -- dense n × n, row-major
   b : Array Rat := #[]
+  /-- `|M|ᵀ|M|` and `|M|ᵀ|v|` for the least-squares form (`|A|`, `|b|` otherwise): magnitude of the operations that form the gradient -/
+  Aabs : Array Rat := #[]
+  babs : Array Rat := #[]
+  rows : Nat := 0
   ref : Option (Array Rat) := none
   refTried : Bool := false
 
@@ -90,7 +95,7 @@ def parseSys (ws : List String) : Option (Sys × Nat) := do
         let A := ts.foldl (fun (a : Array Rat) (t : Nat × Nat × Rat) =>
           let p := t.1 * n + t.2.1
           a.setIfInBounds p (a.getD p 0 + t.2.2)) (Array.replicate (n*n) 0)
-        pure ({ n := n, A := A, b := va }, nref)
+        pure ({ n := n, A := A, b := va, Aabs := A.map ratAbs, babs := va.map ratAbs, rows := n }, nref)
       else
         -- A = MᵀM, b = Mᵀv, from the rows of M
         let rowsM : Array (List (Nat × Rat)) := ts.foldl (fun a t => a.setIfInBounds t.1 ((t.2.1, t.2.2) :: a.getD t.1 [])) (Array.replicate rows [])
@@ -100,7 +105,13 @@ def parseSys (ws : List String) : Option (Sys × Nat) := do
             a.setIfInBounds pos (a.getD pos 0 + p.2 * q.2)) a) a) (Array.replicate (n*n) 0)
         let b := (rowsM.zip va).foldl (fun (a : Array Rat) (rv : List (Nat × Rat) × Rat) =>
           rv.1.foldl (fun a p => a.setIfInBounds p.1 (a.getD p.1 0 + p.2 * rv.2)) a) (Array.replicate n 0)
-        pure ({ n := n, A := A, b := b }, nref)
+        let Aabs := rowsM.foldl (fun (a : Array Rat) row =>
+          row.foldl (fun a p => row.foldl (fun a q =>
+            let pos := p.1 * n + q.1
+            a.setIfInBounds pos (a.getD pos 0 + ratAbs (p.2 * q.2))) a) a) (Array.replicate (n*n) 0)
+        let babs := (rowsM.zip va).foldl (fun (a : Array Rat) (rv : List (Nat × Rat) × Rat) =>
+          rv.1.foldl (fun a p => a.setIfInBounds p.1 (a.getD p.1 0 + ratAbs (p.2 * rv.2))) a) (Array.replicate n 0)
+        pure ({ n := n, A := A, b := b, Aabs := Aabs, babs := babs, rows := rows }, nref)
     | _ => none
   | _ => none
 
@@ -114,13 +125,14 @@ def roundUnit (n : Nat) : Rat := (64 * (n : Rat)) / ((2^53 : Nat) : Rat)
     Cholesky-based solvers (block, updown, BLOCK3; scaling-invariant backward error, componentwise):
       `tolS + negpart·Σ_j|A_ij| + 64·n·2⁻⁵³·(Σ_j |A_ij| x_j + |b_i|)`
     Lawson–Hanson (`lh`, SuiteSparseQR: backward error relative to the *column* norms, not invariant under scaling):
-      `tolS + 64·n·2⁻⁵³·(Σ_j ‖A_:j‖₁ x_j + ‖b‖₁)`  for every `i`. -/
+      `tolS + 64·max(n,rows)·2⁻⁵³·Σ_i(Σ_j |A|_ij x_j + |b|_i)`  for every `i`, where for the least-squares form
+      `|A| = |M|ᵀ|M|`, `|b| = |M|ᵀ|v|` (the gradient `Mᵀ(Mx − v)` cancels against `‖M‖‖v‖`, not against `|Mᵀv|`). -/
 def tolVec (s : Sys) (lh : Bool) (tolS negpart : Rat) (xp : Vec) : Array Rat :=
   if lh then
-    let col : Array Rat := ((List.range s.n).map fun j => sumTo s.n fun i => ratAbs (s.mat i j)).toArray
-    let mag := (sumTo s.n fun j => col.getD j 0 * xp j) + (sumTo s.n fun i => ratAbs (s.vec i))
+    let mag := (sumTo s.n fun i => (sumTo s.n fun j => s.Aabs.getD (i * s.n + j) 0 * xp j) + s.babs.getD i 0)
+    let u := roundUnit (if s.n < s.rows then s.rows else s.n)
     ((List.range s.n).map fun i =>
-      tolS + negpart * (sumTo s.n fun j => ratAbs (s.mat i j)) + roundUnit s.n * mag).toArray
+      tolS + negpart * (sumTo s.n fun j => ratAbs (s.mat i j)) + u * mag).toArray
   else
   ((List.range s.n).map fun i =>
     tolS + negpart * (sumTo s.n fun j => ratAbs (s.mat i j))
